@@ -202,6 +202,14 @@ class Number(ExcelType):
     def __number__(self):
         return self.value
 
+    def __str__(self):
+        # Excel shows an integral value without a decimal part.
+        value = self.value
+        if isinstance(value, float) and value.is_integer() \
+                and abs(value) < 1e15:
+            return str(int(value))
+        return str(value)
+
     def __datetime__(self):
         return utils.number_to_datetime(self.value)
 
